@@ -100,6 +100,20 @@ def gen_cases(tier, seed):
                     spec['plan']['gate'] = {'match': 's3:UploadPartCopy', 'phase': 'after',
                                             'policy': rng.choice(['reverse', 'lowest_last', 'seeded'])}
                 cases.append(spec)
+    # non-seekable sources whose read(n) returns fewer bytes than asked for before EOF (raw pipes, sockets)
+    for (T, C) in combos:
+        for size in sizes_for(T, C):
+            for caps in ([3], [1, 7, 2], [C - 1], [C, 1]):
+                if caps[0] <= 0:
+                    continue
+                for sized in (False, True):
+                    t = {'kind': 'upload', 'src': 'nonseekable', 'size': size, 'src_caps': caps}
+                    if sized:
+                        t['subs'] = [{'provide_size': size}]
+                    cases.append({'seed': rng.randrange(1 << 30), 'min_part': 1, 'transfers': [t],
+                                  'config': dict(multipart_threshold=T, multipart_chunksize=C, max_request_concurrency=rng.choice([1, 2, 3]),
+                                                 max_in_memory_upload_chunks=rng.choice([1, 2, 3])),
+                                  'client': {'checksum': rng.choice(['when_supported', 'when_required'])}})
     # legacy S3Transfer.upload_file (path sources), parts finishing in steered orders
     for (T, C) in combos:
         for size in sizes_for(T, C):
